@@ -1009,6 +1009,7 @@ void cr_helper(const I Ap[], const int Ap_size,
         }
         splitting[new_pt] = 1;
         gamma[new_pt] = 0;
+        omega[new_pt] = 0;
 
         // 2. Remove from candidate set all nodes connected to
         // new C-point by marking weight zero.
